@@ -1,9 +1,9 @@
 #!/bin/bash
-# ./sweep.sh <tier> [seed...]   runs every check, prints one line per check
+# ./sweep.sh <tier> [seed...]   runs every check, prints one line per check (VERIF_SWEEP_ORDER="19 05 ...": these checks, in this order)
 tier=${1:-quick}; shift
 seeds=${@:-0}
 for s in $seeds; do
-for i in 01 02 03 04 05 06 07 08 09 10 11 12 13 14 15 16 17 18 19 20; do
+for i in ${VERIF_SWEEP_ORDER:-01 02 03 04 05 06 07 08 09 10 11 12 13 14 15 16 17 18 19 20}; do
   out=$(VERIF_SEED=$s timeout -k 10 7200 ./check C$i $tier 2>&1); rc=$?
   echo "seed=$s C$i rc=$rc $(echo "$out" | grep -m1 '^\[C')"
   echo "$out" | grep -E '^(VIOLATION|INCONCLUSIVE|KNOWN-FINDING)' | head -5 | cut -c1-300
